@@ -378,14 +378,14 @@ func vdCellValues(c vdCell) []vdVal {
 		return append(vs, vdVal{"len=max", vdI16(math.MaxInt16)})
 	case "int32":
 		return []vdVal{{"len=-2", vdI32(-2)}, {"len=-1", vdI32(-1)}, {"len=0", vdI32(0)},
-			{"len=rem+1", vdI32(c.Rem + 1)}, {"len=max", vdI32(math.MaxInt32)}}
+			{"len=rem+1", vdI32(c.Rem + 1)}, {"len=big", vdI32(1 << 20)}, {"len=max", vdI32(math.MaxInt32)}}
 	case "varint":
 		return []vdVal{{"len=-2", vdVar(-2)}, {"len=-1", vdVar(-1)}, {"len=0", vdVar(0)},
-			{"len=rem+1", vdVar(int64(c.Rem + 1))}, {"len=max", vdVar(math.MaxInt32)},
+			{"len=rem+1", vdVar(int64(c.Rem + 1))}, {"len=big", vdVar(1 << 20)}, {"len=max", vdVar(math.MaxInt32)},
 			{"len=huge", vdVar(math.MaxInt64)}, {"varint-overflow", vdOverflowVarint}}
 	case "uvarint": // compact encodings carry length+1; 0 is the null marker
 		return []vdVal{{"len=-2", vdUvar(math.MaxUint64)}, {"len=-1", vdUvar(0)}, {"len=0", vdUvar(1)},
-			{"len=rem+1", vdUvar(uint64(c.Rem + 2))}, {"len=max", vdUvar(1 << 31)},
+			{"len=rem+1", vdUvar(uint64(c.Rem + 2))}, {"len=big", vdUvar(1<<20 + 1)}, {"len=max", vdUvar(1 << 31)},
 			{"len=huge", vdUvar(1 << 63)}, {"varint-overflow", vdOverflowVarint}}
 	}
 	return nil
